@@ -1,7 +1,7 @@
 #!/bin/bash
 # Build the Coq development (full .vo) and the extracted OCaml model driver, offline.
 cd "$(dirname "$0")"
-export PYTHONPATH=/verif/harness PYTHONDONTWRITEBYTECODE=1
+export PYTHONPATH="$(pwd)/harness" PYTHONDONTWRITEBYTECODE=1
 /venv/bin/python - <<'PY' 2> >(grep -v -i conda >&2)
 import sys, common
 import translate_checker
